@@ -221,6 +221,9 @@ func C06(c *core.Ctx) {
 		if asBool(flags["parentV"]) {
 			env["V"] = "parent"
 		}
+		if asBool(flags["parentEmpty"]) {
+			env["V"] = ""
+		}
 		var fl []string
 		for k, v := range flags {
 			if b, ok := v.(bool); ok && b {
